@@ -26,9 +26,26 @@ for e in kf:
         lines.append('* %s %s [`%s`] — %s' % (e['property'], e['id'], e['signature'], e['what']))
 findings = '\n'.join(lines)
 
+# property-preserving changes (false-alarm corpus)
+rows = ['| benign change | what it does | check on the changed tree |', '|----|----|----|']
+for mpath in sorted(glob.glob(os.path.join(root, 'benign', '*', 'meta.json'))):
+    m = json.load(open(mpath))
+    name = os.path.basename(os.path.dirname(mpath))
+    title = ''
+    npath = os.path.join(os.path.dirname(mpath), 'notes.md')
+    if os.path.exists(npath):
+        title = open(npath).readline().lstrip('# ').strip()
+    v = m.get('verdict', '?')
+    if m.get('check_broken_obligations'):
+        v += ' (' + '; '.join(x.replace('BROKEN OBLIGATION(S): ', '')[:110] for x in m['check_broken_obligations'][:1]) + ')'
+    if m.get('concrete_violation_signatures'):
+        v += ' signatures: ' + '; '.join(str(x) for x in m['concrete_violation_signatures'][:3])
+    rows.append('| %s | %s | %s |' % (name, title.replace('|', '/'), v.replace('|', '/')))
+benign = '\n'.join(rows)
+
 na = json.load(open(os.path.join(root, 'MANIFEST.json'))).get('not_applicable', [])
 out = part1.rstrip('\n') + '\n' + part2
-out = out.replace('@@STATUS_TABLE@@', status.strip()).replace('@@FINDINGS_TABLE@@', findings).replace('@@SEEDED_TABLE@@', seeded.strip())
+out = out.replace('@@STATUS_TABLE@@', status.strip()).replace('@@FINDINGS_TABLE@@', findings).replace('@@SEEDED_TABLE@@', seeded.strip()).replace('@@BENIGN_TABLE@@', benign)
 for f in sorted(glob.glob(os.path.join(root, 'design.d', 'C[0-9][0-9].md'))):
     txt = open(f).read().strip('\n')
     # demote headings by two levels so that each note becomes a subsection of section 16
